@@ -347,6 +347,59 @@ func (a *Analysis) FnPos(f *ssa.Function) string {
 
 // Reach computes the repo-scoped forward closure from roots.
 func (a *Analysis) Reach(roots []*ssa.Function, stop func(*ssa.Function) bool) map[*ssa.Function]*ssa.Function {
+	return a.ReachOpt(roots, stop, false)
+}
+
+// ReachOpt is Reach; with skipGo, functions that are only started as
+// goroutines (go f(), go func(){...}()) are not entered.
+func (a *Analysis) ReachOpt(roots []*ssa.Function, stop func(*ssa.Function) bool, skipGo bool) map[*ssa.Function]*ssa.Function {
+	goOnly := map[[2]*ssa.Function]bool{}
+	if skipGo {
+		// (caller, callee) pairs whose every site is a go statement or a closure
+		// created only to be handed to one
+		type st struct{ goSites, other int }
+		cnt := map[[2]*ssa.Function]*st{}
+		for f, es := range a.Out {
+			for _, e := range es {
+				k := [2]*ssa.Function{f, e.Callee}
+				s := cnt[k]
+				if s == nil {
+					s = &st{}
+					cnt[k] = s
+				}
+				switch site := e.Site.(type) {
+				case *ssa.Go:
+					s.goSites++
+				case *ssa.MakeClosure:
+					// closure value: does it only flow into go statements?
+					onlyGo := site.Referrers() != nil && len(*site.Referrers()) > 0
+					if site.Referrers() != nil {
+						for _, r := range *site.Referrers() {
+							if _, isGo := r.(*ssa.Go); !isGo {
+								if _, dbg := r.(*ssa.DebugRef); !dbg {
+									onlyGo = false
+								}
+							}
+						}
+					}
+					if onlyGo {
+						s.goSites++
+					} else {
+						s.other++
+					}
+				case nil:
+					// parent->anonymous-function link: decided by the MakeClosure sites
+				default:
+					s.other++
+				}
+			}
+		}
+		for k, s := range cnt {
+			if s.goSites > 0 && s.other == 0 {
+				goOnly[k] = true
+			}
+		}
+	}
 	parent := map[*ssa.Function]*ssa.Function{}
 	var q []*ssa.Function
 	for _, r := range roots {
@@ -365,6 +418,9 @@ func (a *Analysis) Reach(roots []*ssa.Function, stop func(*ssa.Function) bool) m
 			continue
 		}
 		for _, e := range a.Out[f] {
+			if skipGo && goOnly[[2]*ssa.Function{f, e.Callee}] {
+				continue
+			}
 			if _, ok := parent[e.Callee]; !ok {
 				parent[e.Callee] = f
 				q = append(q, e.Callee)
